@@ -53,8 +53,10 @@ def _text_chunk(items):
                     if len(xs) != 1:
                         raise ph.LexError('expected one <%s>' % el)
                     got = xs[0]['t']
-                    if pname == 'text before children' and fmt:
-                        got = got.rstrip('\n\t') if got.rstrip('\n\t') == t else got
+                    if fmt:
+                        # with formatting on the formatter may put line breaks and tab indentation around a text node or between text
+                        # and children; payloads contain neither character
+                        got = got.strip('\n\t')
                 except ph.LexError as ex:
                     bad.append(('output is not well-formed markup', dict(case, output=out, lexer=str(ex))))
                     continue
